@@ -68,9 +68,12 @@ def check_C09(tier, seed):
                          'invariants on the event history; code: the same scenarios replayed plus random deeper probe programs '
                          '(method/pipe sugar, slices, dict literals, index/compound/del statements), every event validated by TLC; '
                          'distinct = distinct (source, outcome assignment)')
-    consts = {'MaxLeaves': '3' if quick else '4', 'MaxDepth': '2'}
+    consts = {'MaxLeaves': '3', 'MaxDepth': '2'}
     res = engine.model_check(rep, 'MC_C09.tla', 'MC_C09.cfg', consts=consts, timeout=900 if quick else 3400, coverage=not quick)
     rep.exhaustive = True
+    if not quick:
+        # the wide constructs (4-leaf dict literals, 3-part slices, max/push with nested operands) at depth 1
+        engine.model_check(rep, 'MC_C09.tla', 'MC_C09.cfg', consts={'MaxLeaves': '4', 'MaxDepth': '1'}, timeout=3400)
     engine.model_check(rep, 'MC_C09.tla', 'MC_C09.cfg', consts={'MaxLeaves': '3', 'MaxDepth': '1'}, deviations=['MutIfBoth'],
                        expect_violation=True, timeout=600)
     if not rep.machinery:
@@ -363,6 +366,28 @@ def check_C16(tier, seed):
     cases = [c for c in vmrun.run_scenarios(scns) if 'harness_error' not in c]
     engine.judge_cases(rep, cases, devs, what='failing program')
     _base_exceptions(rep, cases)
+    # the same faulty text submitted repeatedly to long-lived parsers (plain and caching): SQSession says it fails every time
+    from . import session
+    for kind in (None, 'dict'):
+        sessions, verdicts, results = session.validate_sessions(seed + 77, 100 if quick else 1200, 6, cache_kind=kind, observe_keys=False)
+        for res in results:
+            rep.add_tlc(res, 'TraceSession cache=%s (repeated faulty texts)' % kind)
+            if res.rc != 0:
+                rep.machinery.append('TraceSession failed: ' + res.out[-800:])
+        for sess, vd in verdicts:
+            rep.evaluations += 1
+            if vd is None:
+                rep.machinery.append('TraceSession dropped a session')
+            elif vd['v'] == 'accepted':
+                rep.traces += 1
+            elif vd['clause'] == 'outcome' and 'names' not in sess[vd['at'] - 1]['obs'] and (
+                    sess[vd['at'] - 1]['obs'].get('ok') or sess[vd['at'] - 1]['obs'].get('cls') not in ('ParserError', 'ParserOpsLimitError')):
+                i = vd['at'] - 1
+                rep.violation('session (cache=%s): a text the specification rejects with ParserError was accepted / failed otherwise at call %d: %r'
+                              % (kind, vd['at'], [(c['op'], c['text']) for c in sess[:i + 1]]),
+                              {'cache': kind, 'calls': [(c['op'], c['text'], c['k']) for c in sess[:i + 1]], 'observed': sess[i]['obs']})
+            else:
+                rep.notes['session_differences_outside_this_property'] = rep.notes.get('session_differences_outside_this_property', 0) + 1
     # syntax layer
     lp = _lexparse()
     open_devs = [d for d in devs if d in lp.ALL_DEVIATIONS] + list(lp.IMPL_DETAIL)
@@ -501,7 +526,9 @@ def check_C08(tier, seed):
                          'rational order, sign-of-zero and ideal-exponent rules); conformance of the same module with Python decimal at '
                          'precision 28 on boundary + random cases (TraceDecimal); code: expression trees over + - * / unary minus, '
                          'comparisons, round/floor/ceil/abs/int/sum/min/max with boundary literals (carries, ties at the 28th digit, '
-                         '27/28/29-digit operands, long fractions) - every arithmetic node validated by TLC')
+                         '27/28/29-digit operands, long fractions) - every arithmetic node validated by TLC; the NUMBER tokens the '
+                         'long-lived lexer yields for each text are recorded and must equal DecFromLiteral(text) (LiteralExact), also '
+                         'in 2-3 call histories where an earlier call made the same value through float()')
     cfg = engine.write_cfg('MC_Decimal_%d.cfg' % os.getpid(), ['INIT Init', 'NEXT Next', 'INVARIANT Correct', 'CHECK_DEADLOCK FALSE'] +
                            (['CONSTANT Precs <- QuickPrecs'] if quick else []))
     res = common.run_tlc('MC_Decimal.tla', cfg=cfg, workers=16, timeout=3000)
@@ -516,8 +543,13 @@ def check_C08(tier, seed):
     if not dc.get('ok'):
         rep.machinery.append('SQDecimal disagrees with Python decimal: %r' % (dc,))
     scns = families.numeric_programs(seed, 2500 if quick else 25000, host_types=False)
+    for s in scns:
+        s['literals'] = True
     cases = [c for c in vmrun.run_scenarios(scns) if 'harness_error' not in c]
     engine.judge_cases(rep, cases, devs, what='numeric program')
+    scns = families.literal_history_programs(seed + 2, 400 if quick else 5000)
+    cases = [c for c in vmrun.run_scenarios(scns) if 'harness_error' not in c]
+    engine.judge_cases(rep, cases, devs, what='literal-after-float history')
     rep.assumptions += ['** and float() of non-integral values are specified relationally (Decimal of <= 28 digits); float results are exact '
                         'binary expansions by definition and excluded from the exactness claim']
     return rep.finish()
